@@ -250,7 +250,21 @@ def _url_contract(iface):
 BODY_CONTRACTS = [_body_contract(i, n) for i in ("wsgi", "asgi") for n in ("json", "form")] + [_url_contract("wsgi"), _url_contract("asgi")]
 
 
+QP_INIT = Contract(
+    id="QueryParams.__init__[bytes]", file="baize/datastructures.py", qualname="QueryParams.__init__", props=["C12"],
+    params={"self": ObjT("baize/datastructures.py:QueryParams"), "raw": Bytes},
+    stubs={"parse_qsl": parse_qsl_stub, "super().__init__": lambda ev, a, k, n: NONE},
+    frame_check=False,
+    # the ASGI request hands over the raw query bytes of the client: whatever they are, building the mapping cannot fail
+    raises={}, ensures={"built": "True"},
+    canaries={"never_returns": "False"},
+    assumptions=["A-qsl"],
+    notes="QueryParams(raw bytes) as used by the ASGI request.query_params: the bytes are read as Latin-1 (total), parse_qsl is a stub",
+)
+
+
 def register(reg):
+    reg.add(QP_INIT)
     for c in (CONTENT_LENGTH, DATE):
         reg.add(c)
     for c in BODY_CONTRACTS:
